@@ -192,7 +192,7 @@ def generate(rng, opts):
             ops.append({"op": "load", "pkg": pending.pop(0), "loader": rng.randrange(2)})
         elif r < 0.65:
             ops.append({"op": "resolve", "loader": rng.randrange(2), "implicit": rng.random() < 0.6, "external": rng.choice([True, False, None]), "max_iter": rng.choice([None, None, None, 1, 2])})
-        elif r < 0.9:
+        elif r < (0.78 if cfg["links"] else 0.9):
             acc = rng.choice(ACCESSORS_NEVER_RAISE + ACCESSORS_ALIAS_ERRORS)
             ops.append({"op": "deref", "k": rng.randrange(64), "acc": acc})
         elif r < 0.92 and cfg["links"]:
@@ -393,7 +393,7 @@ def _execute(plan, ctx, budget_mode):
                 ok = _step(ctx, griffe, w, coll, loaders, tracker, op, budget_mode, faulty_pkgs, all_pkgs, trace)
                 if not ok or ctx.failures:
                     break
-                if not _check_structure(ctx, griffe, coll, tracker, all_pkgs):
+                if not _check_structure(ctx, griffe, coll, tracker, all_pkgs, budget_mode):
                     break
         ctx.log("end", core.hash_key(_digest(coll)))
         n_alias = len(_aliases(coll))
@@ -481,8 +481,11 @@ def _step(ctx, g, w, coll, loaders, tracker, op, budget_mode, faulty_pkgs, all_p
                 return True
             a = aliases[op["k"] % len(aliases)]
             b = aliases[op["to"] % len(aliases)]
-            try:
+            def _link():
                 a.target = b
+
+            try:
+                _run_op(_link, budget_mode)
                 outcome = "ok"
             except alias_errors as e:
                 outcome = type(e).__name__
@@ -543,7 +546,7 @@ def _alias_tags(a, tracker):
     return tags
 
 
-def _check_structure(ctx, g, coll, tracker, all_pkgs):
+def _check_structure(ctx, g, coll, tracker, all_pkgs, budget_mode=False):
     """I3 + I5 by raw pointers only (no properties that could resolve anything)."""
     for a in _aliases(coll):
         if a._passed_through:
@@ -581,9 +584,14 @@ def _check_structure(ctx, g, coll, tracker, all_pkgs):
         if cyclic:
             ctx.probe("resolved-cycle")
             try:
-                a.final_target  # noqa: B018
+                _run_op(lambda a=a: a.final_target, budget_mode)
             except g.CyclicAliasError:
                 pass
+            except _Timeout:
+                if not budget_mode:
+                    raise
+                ctx.fail("I2-termination", f"final_target of the resolved cyclic chain at {_apath(a)} exceeded the budget of {CALL_BUDGET} Python calls")
+                return False
             except Exception as e:  # noqa: BLE001
                 ctx.fail("I3-cycle", f"resolved cyclic chain at {_apath(a)}: final_target raised {type(e).__name__}", exc=e)
                 return False
